@@ -2,10 +2,10 @@
     names only; string -> char list, ascii -> char), no Extract Constant of our own. *)
 From Coq Require Import Extraction ExtrOcamlBasic ExtrOcamlString.
 From Coq Require Import List String ZArith QArith Qcanon.
-From Inovesa Require Import Model.OptionsTypes Model.Options Gen.Gen_Options Proofs.OptionsRT Proofs.OptionsRT2.
+From Inovesa Require Import Model.OptionsTypes Model.Options Gen.Gen_Options Proofs.OptionsRT Proofs.OptionsRT2 Proofs.OptionsRT3.
 
 Extraction Language OCaml.
 
 Extraction "model_options.ml"
   Q2Qc this
-  gen_table gen_prog gen_wrules parse save saved_items reload sorted_names st0 reparse_lawb.
+  gen_table gen_prog gen_wrules parse save saved_items reload reload_with sorted_names st0 reparse_lawb.
